@@ -241,7 +241,7 @@ def step (st : St) (op impl : List String) : St × Verdict :=
     match impl.head?, field "m=" impl, field "l=" impl with
     | some status, some m, some l =>
       let o1 : Orc := if status == "ok" then { o with live := o.fileDesc, locked := l == "1" } else { o with locked := l == "1" }
-      let orc := if m != idsString o.members && l != "-" then some s!"C10: reload changed the membership to {m}"
+      let orc := if m != idsString o.members && l != "-" then some s!"C10,C14: reload changed the membership to {m}"
         else if status == "ok" then autolockRule o1 "a reload" l else none
       ({ st with w := w1, orc := o1 }, verdictT o v orc)
     | _, _, _ => (st, .badop "reload result")
@@ -296,7 +296,7 @@ def step (st : St) (op impl : List String) : St × Verdict :=
     let v := cmp (membersString st.w) impl
     let m := " ".intercalate impl
     let orc := if st.w.group.isSome && m != idsString o.members then
-      some s!"C10: the members are {m} but the clients admitted and not yet gone are {idsString o.members}" else none
+      some s!"C10,C14: the members are {m} but the clients admitted and not yet gone are {idsString o.members} (members lost from the group that others still list)" else none
     (st, verdictT o v orc)
   | ["locked"] => (st, cmp (lockedString st.w) impl)
   | ["p9", jh, jid, user, pw, oph] =>
@@ -360,6 +360,16 @@ def step (st : St) (op impl : List String) : St × Verdict :=
     | ["deadlock"] =>
       (st, .oracle "C13: deadlock: group.Shutdown -> kickall calls Kick on a WHIP member while holding Group.mu; WhipClient.Kick -> Close -> DelClient locks the same Group.mu again")
     | _ => (st, .mismatch "done")
+  | ["convstress", n, rounds] =>
+    -- C14 under real concurrency: one leave against four joins per round, lists folded by the members themselves (convstress.go)
+    match impl with
+    | ["ok"] => (st, .ok)
+    | [r] =>
+      if r.startsWith "env:" then (st, .ok)
+      else if r.startsWith "bad:" then
+        (st, .oracle s!"C14: with nothing in flight a member's user list differs from the membership (group of {n}, {rounds} rounds of one leave racing four joins; + = ghost entry, - = missing entry): {r}")
+      else (st, .mismatch "ok")
+    | _ => (st, .mismatch "ok")
   | ["loopstress", nc, np, n] =>
     -- C13, lost wakeups: the real clientLoop against nc x np producers of n actions each, then a kick (loopstress.go)
     match impl with
